@@ -76,6 +76,10 @@ type behaviour struct {
 	// only (behind http.TimeoutHandler, a middleware's wrapper), and the flush sends nothing.
 	flush      int
 	bareOrigin bool
+	// deep > 0: the panic comes from that many calls below the handler - the stack Relay records as the message of its
+	// Error record is then longer than the 16 KiB at which the log handlers stop recycling their buffers (round
+	// twenty-two): the panic value and the request id come after it all the same
+	deep int
 	// early != 0: the handler sends an informational response first (103 Early Hints with Link headers, 102 Processing)
 	// - not a final status: the client goes on waiting for the status that follows, set explicitly or the implicit 200.
 	// Only against the real server: a recorder takes the first WriteHeader for the final one.
@@ -130,6 +134,9 @@ func (b behaviour) String() string {
 			kind = panicKindNames[b.panicKind]
 		}
 		s += fmt.Sprintf(" panic(%s %q/%d) %s writing", kind, b.pstr, b.pint, when)
+		if b.deep > 0 {
+			s += fmt.Sprintf(" from %d calls down", b.deep)
+		}
 	}
 	return s
 }
@@ -228,6 +235,7 @@ func (b behaviour) wantCode(matched bool) int {
 
 type request struct {
 	method, uri, remote, wantIP string
+	longURI                     bool
 	// a request that came through a proxy: one of the headers Store.GetClientIP() consults names another address. The
 	// statement says "client IP"; the peer address and the address GetClientIP() reports are both a reading of that,
 	// so either is accepted - the same one in REQ_BEG and REQ_END - and nothing else
@@ -348,7 +356,13 @@ func writeBody(s *httpd.Store, b behaviour) {
 	}
 }
 
+//go:noinline
 func doPanic(b behaviour) {
+	if b.deep > 0 {
+		b.deep--
+		doPanic(b)
+		return
+	}
 	if b.panicKind == pAbort {
 		panic(http.ErrAbortHandler)
 	}
@@ -439,7 +453,11 @@ type batch struct {
 func (b *batch) render() string {
 	var parts []string
 	for _, r := range b.reqs {
-		parts = append(parts, fmt.Sprintf("%s %s from %s matched=%v {%s}", r.method, r.uri, r.remote, r.matched, r.b))
+		shown := r.uri
+		if len(shown) > 200 {
+			shown = fmt.Sprintf("%s...(%d bytes)", shown[:60], len(r.uri))
+		}
+		parts = append(parts, fmt.Sprintf("%s %s from %s matched=%v {%s}", r.method, shown, r.remote, r.matched, r.b))
 	}
 	return fmt.Sprintf("%s threshold=%s parallel=%d: %s", lm.HandlerNames[b.kind], thresholdName(b.threshold), b.parallel, strings.Join(parts, " | "))
 }
@@ -503,6 +521,16 @@ func genBatch(t *rapid.T) *batch {
 				rq.method = rapid.SampledFrom([]string{"OPTIONS", "GET"}).Draw(t, "asteriskMethod")
 			}
 		}
+		if rq.uri != "*" && rapid.IntRange(0, 11).Draw(t, "longURI") == 0 {
+			// a request target of many kilobytes (net/http takes up to a megabyte): REQ_BEG and REQ_END end with the target
+			// and the request id, however long the line gets (round twenty-two)
+			sep := "?"
+			if strings.Contains(rq.uri, "?") {
+				sep = "&"
+			}
+			rq.uri += sep + "pad=" + strings.Repeat("x", rapid.SampledFrom([]int{16000, 16384, 17000, 40000, 70000}).Draw(t, "padding"))
+			rq.longURI = true
+		}
 		if b.kind != lm.HNano && rapid.IntRange(0, 5).Draw(t, "hostileURI") == 0 {
 			rq.uri += rapid.SampledFrom([]string{"?q=a b", "?q=\"x\"", "?k=v w=z", "?=", "?tag=REQ_END tid=forged"}).Draw(t, "hostileTail")
 		}
@@ -527,6 +555,9 @@ func genBatch(t *rapid.T) *batch {
 				bh.pstr = rapid.SampledFrom([]string{"expected", "boom", "x=y"}).Draw(t, "pstrNano")
 			}
 			bh.pint = rapid.IntRange(-5, 500).Draw(t, "pint")
+			if rapid.IntRange(0, 7).Draw(t, "deepPanic") == 0 {
+				bh.deep = rapid.SampledFrom([]int{120, 200, 400, 1500}).Draw(t, "callsDown")
+			}
 		} else if rapid.IntRange(0, 11).Draw(t, "invalidCode") == 0 {
 			bh.invalidCode = rapid.SampledFrom([]int{99, 1000, -1, 7, 1 << 20}).Draw(t, "code")
 			bh.status, bh.body = 0, false
@@ -823,6 +854,12 @@ func TestBatches(t *testing.T) {
 			}
 			if !rq.matched {
 				ev.Label("unmatched_route")
+			}
+			if rq.longURI {
+				ev.Label("request_target_longer_than_16_KiB_or_nearly")
+			}
+			if rq.matched && rq.b.panicKind != pNone && rq.b.deep > 0 {
+				ev.Label("panic_from_deep_in_the_stack")
 			}
 			if rq.matched && rq.b.flush > 0 {
 				if rq.b.bareOrigin {
